@@ -183,12 +183,7 @@ func C01(p *load.Prog, r *oblig.Run) {
 	r.Rule("R01.a", "the line reader's pattern accepts the documented line grammar and parseLine routes each group to the right field", 400)
 	r.Rule("R01.b", "the line writer emits exactly 'level [@ptr@] TAG [value]'", 12)
 	r.Rule("R01.c", "tag -> specialised kind registry agrees with the tag each kind's constructor hard-wires; value and pointer are passed through", 27)
-	// the registry is only worth something if no other code path makes a plain node for a registered tag
-	if ok, why := registryInvariant(p, registryKinds(p)); ok {
-		r.Add("R01.c", "registry invariant", "-", "plain nodes are only made by the registry's fallback").OK("newSimpleNode is called with a computed tag only from the fallback of the kind registry; Tag.Is is exact")
-	} else {
-		r.Add("R01.c", "registry invariant", "-", "plain nodes are only made by the registry's fallback").Fail("a line can be decoded into a plain node although its tag has a specialised kind: " + why + " - the decoded tree differs in node kinds from what the encoder was given (and kind-specific accessors fail on it)")
-	}
+	c01RegistryInvariant(p, r)
 	r.Rule("R01.d", "BOM flag is restored before any node on encode and recorded before any line on decode", 3)
 
 	r.Rule("R01.e", "the decoder's current family is updated for every decoded family line and never reset, so family-role lines the encoder wrote are accepted wherever they appear", 1)
@@ -1112,5 +1107,16 @@ func c01BOM(p *load.Prog, r *oblig.Run) {
 		} else {
 			o.Fail(fmt.Sprintf("consumeOptionalBOM discards %d bytes (guarded=%v); the UTF-8 BOM is 3 bytes and must only be dropped when present", n, guarded))
 		}
+	}
+}
+
+// c01RegistryInvariant: the registry is only worth something if no other code path makes a plain node for a
+// registered tag and Tag.Is is exact (shared by C01, C02, C07).
+func c01RegistryInvariant(p *load.Prog, r *oblig.Run) {
+	// the registry is only worth something if no other code path makes a plain node for a registered tag
+	if ok, why := registryInvariant(p, registryKinds(p)); ok {
+		r.Add("R01.c", "registry invariant", "-", "plain nodes are only made by the registry's fallback").OK("newSimpleNode is called with a computed tag only from the fallback of the kind registry; Tag.Is is exact")
+	} else {
+		r.Add("R01.c", "registry invariant", "-", "plain nodes are only made by the registry's fallback").Fail("a line can be decoded into a plain node although its tag has a specialised kind: " + why + " - the decoded tree differs in node kinds from what the encoder was given (and kind-specific accessors fail on it)")
 	}
 }
